@@ -16,7 +16,7 @@ RULE = sqlmon.RULE_HISTORIES + ' Job DAGs: in-update and cross-update parents, r
 ASSUMPTIONS = sqlmon.COMMON_ASSUMPTIONS
 SHARDS = {'quick': 4, 'thorough': 16}
 TIMEOUT = {'quick': 900, 'thorough': 3600}
-FLOORS = {'scripted_children_checked': 40, 'scripted_scenarios': 10, 'scripted_live_parent_commits': 10, 'scripted_mixed_parent_completions': 3, 'jobs_with_parents_observed_live': 100, 'children_cancelled_by_failed_parent': 10, 'histories_free_of_known_patterns': 50}
+FLOORS = {'scripted_always_run_children_of_failed_parents_checked': 4, 'scripted_children_checked': 40, 'scripted_scenarios': 10, 'scripted_live_parent_commits': 10, 'scripted_mixed_parent_completions': 3, 'jobs_with_parents_observed_live': 100, 'children_cancelled_by_failed_parent': 10, 'histories_free_of_known_patterns': 50}
 
 
 class Deps(Monitor):
@@ -49,7 +49,10 @@ OUTCOMES = ['Success', 'Failed', 'Error', 'Cancelled-by-failed-grandparent', 'Ca
             'Live-at-commit-Ready', 'Live-at-commit-Creating', 'Live-at-commit-Running',
             # a job of a later update has one parent in its own update (still Pending) and one in an earlier update that finishes
             # while the later update is not yet committed
-            'Mixed-parents-earlier-parent-finishes-before-commit']
+            'Mixed-parents-earlier-parent-finishes-before-commit',
+            # "always-run children run regardless": the always-run child of a failed parent is actually handed to a worker once there is
+            # capacity for it (one scheduling round with a free active VM; one request + activation + round for a job-private VM)
+            'Always-run-child-of-failed-parent-is-run-pool', 'Always-run-child-of-failed-parent-is-run-job-private']
 
 
 async def scripted(runner, w, fz, rng):
@@ -59,7 +62,8 @@ async def scripted(runner, w, fz, rng):
     from vf.world.world import userdata
 
     ctx = runner.ctx
-    outcome = rng.choice(OUTCOMES)
+    rng.choice(OUTCOMES)  # (keeps the random stream aligned)
+    outcome = OUTCOMES[(ctx.case_index[1] + ctx.shard) % len(OUTCOMES)]
     commit_first = rng.random() < 0.4
     ctx.seen('scripted_scenarios', f'{outcome}/{"commit-before-parent-terminal" if commit_first else "commit-after-parent-terminal"}')
     user = 'alice'
@@ -84,9 +88,12 @@ async def scripted(runner, w, fz, rng):
     await fe._commit_update(w.fe_app, bid, u1, user, w.db)
     await w.create_instance('standard', cores=16)
 
-    async def second_update():
+    async def second_update(jp=False):
         u2, _, _ = await fe._create_batch_update(bid, 'c05s-2', 2, 0, user, w.db)
         js = [spec(1, absolute_parent_ids=[2]), spec(2, absolute_parent_ids=[2], always_run=True)]
+        if jp:
+            for j in js:
+                j['resources'] = {'machine_type': 'n1-standard-1', 'preemptible': True, 'storage': '1Gi'}
         validate_and_clean_jobs(js)
         await fe._create_jobs(ud, js, bid, u2, w.fe_app)
         await fe._commit_update(w.fe_app, bid, u2, user, w.db)
@@ -134,6 +141,45 @@ async def scripted(runner, w, fz, rng):
             ctx.count('scripted_live_parent_commits')
         await second_update()  # the on_commit oracle judges the children here
         return
+    if outcome.startswith('Always-run-child'):
+        from vf.world.oracles import View as _V
+        jp = outcome.endswith('job-private')
+        if commit_first:
+            await second_update(jp)
+        await run_job(1, 'succeeded')
+        await run_job(2, rng.choice(['failed', 'error']))
+        if not commit_first:
+            await second_update(jp)
+        # the step being judged runs without the workload's injected worker refusals / driver faults: with a willing worker and
+        # free capacity, one round must hand the job over
+        saved = {k: fz.cfg[k] for k in ('worker_reject_p', 'fault_schedule_db_p')}
+        fz.cfg.update({k: 0 for k in saved})
+        fz.fail_next_schedule_db = False
+        if jp:
+            await w.jpim.create_instances_loop_body()
+            await fz._drain()
+            for i in sorted(w.jpim.name_instance.values(), key=lambda i: i.name):
+                w.instances.setdefault(i.name, i)
+                if i.state == 'pending':
+                    await i.activate('10.9.0.%d' % (1 + len(w.instances)), w.now_ms())
+            await w.jpim.schedule_jobs_loop_body()
+        else:
+            await w.pools['standard'].scheduler.schedule_loop_body()
+        await fz._drain()
+        fz.cfg.update(saved)
+        fz.sync_attempts_from_db()
+        v = _V(w.engine)
+        j2, j3, j4 = v.jobs.get((bid, 2)), v.jobs.get((bid, 3)), v.jobs.get((bid, 4))
+        if j2 is not None and j4 is not None and j2['state'] in ('Failed', 'Error'):
+            ctx.count('scripted_always_run_children_of_failed_parents_checked')
+            ctx.seen('scripted_always_run_child_state_after_one_round', ('job-private:' if jp else 'pool:') + j4['state'])
+            if j4['state'] not in ('Running', 'Success', 'Failed', 'Error'):
+                runner.violation('always-run-child-of-failed-parent-not-run',
+                                 f'scripted {outcome}: always-run job {(bid, 4)} is {j4["state"]} (cancelled={j4["cancelled"]}) after its parent ended {j2["state"]} and a scheduling round with a free {"job-private VM activated for it" if jp else "16-core worker"}',
+                                 {'job': [bid, 4], 'outcome': outcome})
+            if j3['state'] in ('Running', 'Creating'):
+                runner.violation('failed-parent-not-cancelling', f'scripted {outcome}: job {(bid, 3)} (not always-run) is {j3["state"]} after its parent ended {j2["state"]}', {'job': [bid, 3], 'outcome': outcome})
+        return
     if commit_first:
         await second_update()
     if outcome in ('Success', 'Failed', 'Error'):
@@ -169,7 +215,7 @@ def run(ctx):
     p = Patterns()
     r = HistoryRunner(ctx, [p, Deps(p), sqlmon.EdgeMonitor(p, check_lifecycle=False)], cfg={'weights': dict(sqlmon.WEIGHTS_RUN), 'job_private': False},
                       n_ops=ctx.pick(25, 40), setup=scripted)
-    for i, rng in ctx.cases(ctx.pick(30, 200), 'scripted'):
+    for i, rng in ctx.cases(ctx.pick(44, 220), 'scripted'):
         res = r.run_case(i, rng)
         ops = res.get('ops', [])
         ctx.case(sample={'scripted-prefix+ops': ops[:30]}, key=('scripted', i, tuple(ops)), nontrivial=True)
